@@ -577,6 +577,20 @@ func TestRaceModels(t *testing.T) {
 			},
 			func(g, i int) { r, _ := mm.GetMetadata(); touch(r) },
 			func(g, i int) {
+				// a whole-value update may store the traits in any order ...
+				r, _ := mm.UpdateMetadata(&traits.Metadata{Name: "u", Traits: []*traits.TraitMetadata{{Name: string(traitNames[(i+2)%4])}, {Name: string(traitNames[i%4])}, {Name: string(traitNames[(i+1)%4])}}})
+				touch(r)
+			},
+			func(g, i int) {
+				// ... and a merge that names no trait at all (a rename) leaves them to the model
+				r, _ := mm.MergeMetadata(&traits.Metadata{Name: fmt.Sprint("renamed", i)})
+				touch(r)
+			},
+			func(g, i int) {
+				r, _ := mm.GetMetadata(resource.WithReadPaths(&traits.Metadata{}, "traits", "name"))
+				touch(r)
+			},
+			func(g, i int) {
 				r, _ := vm.DispenseInstantly("cola", &traits.Consumable_Quantity{Amount: 1, Unit: traits.Consumable_LITER})
 				touch(r)
 			},
